@@ -719,7 +719,15 @@ namespace awkward {
 
     bool Uint64(uint64_t x) {
       moved_ = true;
-      builder_.integer((int64_t)x);
+      if (x > (uint64_t)std::numeric_limits<int64_t>::max()) {
+        // does not fit the builder's int64: like all other integers beyond
+        // the 64-bit range (which RapidJSON reports as Double), keep the
+        // magnitude as a real number instead of wrapping to a negative one
+        builder_.real((double)x);
+      }
+      else {
+        builder_.integer((int64_t)x);
+      }
       return true;
     }
 
